@@ -308,10 +308,10 @@ class PipelineCorr(Corr):
             out += malformed_cases(rng, 600)
             for es, gs in small_space(3):
                 out += _three_modes(rng, es, gs, "exhaustive-small")
-            for ne, ng in ((4, 4), (3, 4), (4, 3), (3, 3)):
+            for ne, ng in ((4, 4), (3, 4), (3, 3)):
                 for es, gs in label_space(ne, ng):
                     out += _three_modes(rng, es, gs, "all-labels-%dx%d" % (ne, ng))[1:]
-            out += random_cases(rng, 8000, 2000)
+            out += random_cases(rng, 5000, 1500)
         return out
 
     # ---------------------------------------------------------------- implementation
@@ -691,5 +691,5 @@ class C11(Prop):
         return [PipelineCorr(), ScoreCorr()]
 
 
-READY = False
+READY = True
 PROP = C11()
